@@ -28,6 +28,27 @@ CLAIMED = {
  "C07": ("normalised-AST sibling comparison, who-may-construct over the call graph, ordering/dependence obligations",
          "Narrow clauses only: GetAVCProtectRanges and GetHEVCProtectRanges are identical modulo avc/hevc; SubSamplePattern values on the encrypt path are built only by AppendProtectRange; senc/saiz describe what the crypt call used and the iv advance order is right; saio offset depends on the preceding boxes. NOT decided: equality with a reference cipher, block/pattern arithmetic, partition exactness, IV carry arithmetic.",
          "clone comparison ignores comments, local names and error texts.", "DESIGN.md §4 C07"),
+ "C08": ("data-dependence, shape and strictness rules over go/ssa for the lazy-mdat path",
+         "Narrow clauses only: lazy payload size and seek distance depend on box size AND actual header length; the three mdat decoders derive LargeSize/StartPos alike; DecodeBoxLazyMdat has the same header-decode / registry lookup / unknown fallback / decoder call as DecodeBox and seeks only after a successful lazy decode; ReadData/CopyData reject a range end only when strictly beyond the data; direct file-to-writer copies in CopySampleData happen only without a work buffer and the buffer remainder is flushed. Not decided: seek arithmetic values, refill correctness for all buffer sizes.",
+         "dependence is intraprocedural SSA data dependence plus return dependence of repository callees.", "DESIGN.md §4 C08"),
+ "C09": ("coherence-group rule (who stores which parallel fields) and narrow-multiplication lint over go/ssa",
+         "Two clauses only: every function in every package that stores the length-defining member of a sample table also stores its cached/parallel members; no product of two non-constant 32-bit values is widened only after the multiplication in the sample-table query code. The queries' index arithmetic (binary searches, run-length walks, chunk mapping) is NOT decided.",
+         "coherence groups are a frozen table confirmed by reading.", "DESIGN.md §4 C09"),
+ "C10": ("switch exhaustiveness (AST), coherence-group rule, narrow-multiplication lint",
+         "Narrow clauses only: the crop switch handles all eight sample-table box types by calling a crop/update function; crop functions keep parallel/cached table members in step; no 32-bit product widened after the multiplication in the time/offset code the tool uses. Not decided: the cut point, sync-sample selection, durations.",
+         "as C09.", "DESIGN.md §4 C10"),
+ "C11": ("error-discipline path analysis over go/ssa (error value must be used on every path from the call)",
+         "One clause only: in the segmenter, resegmenter and combine-segs examples and MediaSegment.Fragmentify, no error from a sample-moving call is discarded or overtaken by a decision on the co-returned value. Sample conservation itself (interval arithmetic, last-sample handling, sync starts) is NOT decided.",
+         "printing and Close calls are outside the rule.", "DESIGN.md §4 C11"),
+ "C12": ("member-set agreement on a symbolic receiver, switch-order rule (AST), data-dependence, coherence groups",
+         "Narrow clauses only: Size/Encode/EncodeSW of File, MediaSegment and Fragment visit the same members in the same order; index delimiters take precedence over the start-on-moof option; sidx reference size/duration depend on MediaSegment.Size() and summed sample durations; Sidx/Sidxs updated together. Not decided: the partition for a given delimiter mix, anchor arithmetic.",
+         "as C02 for the composites.", "DESIGN.md §4 C12"),
+ "C15": ("id-domain typing of map keys over go/ssa",
+         "One clause only: SPS maps are keyed by SPS-domain ids and PPS maps by PPS-domain ids at every lookup and insertion (avc, hevc, mp4/crypto, cmd tools). Parsed values, cropping formula, slice-header length, codec strings are NOT decided.",
+         "the id-domain table is frozen from the field declarations.", "DESIGN.md §4 C15"),
+ "C19": ("data-dependence / dominance obligations and a parameter-forwarding rule over go/ssa, error discipline",
+         "Narrow clauses only: in AddEmptyTrack trak and trex get the same id derived from the track count, NextTrackID is stored unconditionally from it, both are attached on every path; same-named same-typed parameters are forwarded to each other in the init-segment API; descriptor-builder errors are looked at on every path. Not decided: equality of the built tree after encode/decode, golden files.",
+         "forwarding rule is name-based (same name and identical type).", "DESIGN.md §4 C19"),
  "C16": ("SSA taint + dominance guard analysis, loop-cycle analysis, call-graph reachability of explicit panics",
          "Structural necessary conditions over everything reachable from the exported avc/hevc/sei/aac/av1 helpers that take raw bytes or readers: no explicit panic reachable; allocations sized by wide untrusted counts are guarded; every cycle of a loop that reads from the sticky-error bit readers passes an error test, an exit taken on all-zero data, or a bounded counter test. Not decided: slice-bounds safety of the length-prefixed NAL walkers (needs value-range reasoning), time constants.",
          "as C04.", "DESIGN.md §3 E3/E4, §4 C16"),
